@@ -132,6 +132,25 @@ def typed_nestings(rnd, thorough):
     return out
 
 
+def global_initializers():
+    """every expression form (with degenerate operands: empty block, empty list / object, none, null) as the initializer
+    of a global: the analyzer looks at it in ways of its own (is it constant? what is its type without annotation?)"""
+    atoms = ["1", "{}", "{ }", "{ 1 }", "{ {} }", "[]", "[{}]", "new {}", "new { ? }", "new { a: {} }", "none", "null", "\"\"", "x", "f(1)", "fn() { }", "fn() -> int { 1 }",
+             "1..2", "{}..{}", "if true { } else { }", "match 1 { _ => {} }", "try { } catch e { }", "loop { }", "(({}))", "-{}", "!{}", "?{}", "{} as int",
+             "{}.a", "{}[0]", "{}()", "[{}][0]", "{ let a = 1; }", "{ return; }", "{ break; }", "spawn f(1)", "x = 1"]
+    out = []
+    for a in atoms:
+        out.append("let g = %s;\nfn f(a: int) -> int { a }\nfn main() { }\n" % a)
+        out.append("pub let g = %s;\nlet x = 1;\nfn f(a: int) -> int { a }\nfn main() { println(g); }\n" % a)
+        out.append("let x = 2;\nlet g: int = %s;\nfn main() { }\n" % a)
+    for lv in LEVELS:
+        for a in ("1", "{}", "x"):
+            out.append(PRE + "let x = 1;\nlet g = %s;\nfn main() { }\n" % lv.replace("@", a))
+    out.append("fn main() {}\nlet cfg = {")
+    out.append("let a = {};\nlet b = [a, {}];\nlet c = new { k: b };\nfn main() { }\n")
+    return out
+
+
 def run(args):
     rep = C.Report("C05")
     thorough = C.tier() == "thorough"
@@ -139,7 +158,8 @@ def run(args):
     rep.cov["rule"] = ("inputs derived from the specifications: every string over HmsLex's class alphabet up to length %d, "
                        "lexeme adjacencies of its catalogue, token-level truncation / deletion / replacement / insertion of "
                        "valid programs (spec-AST families and the repository's .hms files), nesting depth up to 1000 (ill-typed levels) and "
-                       "up to 120 / 400 well-typed levels through every child position of every nestable expression and statement, "
+                       "up to 120 / 400 well-typed levels through every child position of every nestable expression and statement, every "
+                       "expression form with degenerate operands as a global initializer, "
                        "64 KiB inputs; each as entry module, as imported module text, and (inputs with import statements) as the "
                        "text a host returns for every module name; non-trivial = distinct inputs" %
                        (4 if thorough else 3))
@@ -184,6 +204,7 @@ def run(args):
     # (4) stress
     inputs += stress()
     inputs += typed_nestings(rnd, thorough)
+    inputs += global_initializers()
     inputs = list(dict.fromkeys(inputs))
     rep.notes["inputs"] = len(inputs)
 
